@@ -212,7 +212,7 @@ def pi_need(mol, i):
         return 1 if tot == 2 else (0 if tot == 3 else None)
     if el == "N" and a.charge == 1:
         return 1 if tot == 3 else (0 if tot == 4 else None)
-    if el in ("O", "S") and a.charge == 0:
+    if el in ("O", "S", "Se", "Te") and a.charge == 0:
         return 0 if tot == 2 else None
     return None
 
